@@ -358,6 +358,33 @@ func runC12(c *sim.Ctx) *sim.Violation {
 		}
 		c.Count("probe.AddFilters-arguments-are-sub-slices-of-one-array")
 	}
+	if t.Bool(1, 2) {
+		// the program keeps its byte-slice arguments (password, payload, correlation
+		// and authentication data) in one arena and passes the same buffer to
+		// several setter calls; the model holds its own copies
+		ar := drv.NewByteArena()
+		var earlier [][]byte
+		for i := range ops {
+			o := &ops[i]
+			isBin := o.Kind == "payload" || o.Kind == "password"
+			if o.Kind == "prop" {
+				if d := ref.Lookup(o.ID); d != nil && d.Kind == ref.KBinary {
+					isBin = true
+				}
+			}
+			if !isBin {
+				continue
+			}
+			if len(earlier) > 0 && len(o.B) > 0 && t.Bool(1, 3) {
+				o.B = append([]byte{}, earlier[t.Int(len(earlier))]...)
+			}
+			if len(o.B) > 0 {
+				earlier = append(earlier, o.B)
+			}
+			ar.Place(o)
+		}
+		c.Count("probe.byte-slice-arguments-share-one-arena")
+	}
 	peek := t.Bool(1, 3)
 	p := drv.New(typ)
 	model := initialModel(typ)
